@@ -158,7 +158,7 @@ func ruleC02V2(c *Ctx, t *thrModel, rule string) {
 		recv, meth, ok := boundMethod(mu.Value)
 		var alloc *ssa.Alloc
 		if ok && meth.Name() == "Receive" {
-			if a, isA := strip(recv).(*ssa.Alloc); isA {
+			if a, isA := resultOf(recv).(*ssa.Alloc); isA {
 				if p, isP := a.Type().(*types.Pointer); isP && isNamed(p.Elem(), PkgThreshold, "rbcFilter") {
 					alloc = a
 				}
@@ -203,12 +203,12 @@ func ruleC02G3(c *Ctx, t *thrModel, rule string) {
 	if fn == nil {
 		return
 	}
-	calls := callsOfFuncField([]*ssa.Function{fn}, t.fFilterH)
+	calls := callsOfFuncField(deepFuncs(fn), t.fFilterH)
 	if len(calls) == 0 {
 		c.Bad(rule, FuncName(fn), "inner call", "-", "rbcFilter.Receive never calls its inner handler")
 	}
 	for _, call := range calls {
-		from := ssa.Value(fn.Params[2])
+		from := strip(fn.Params[2])
 		ok := boolFact(FactsAt(call), true, func(v ssa.Value) bool {
 			tup, isOK := commaOK(v)
 			if !isOK {
@@ -217,7 +217,7 @@ func ruleC02G3(c *Ctx, t *thrModel, rule string) {
 			lk, isL := tup.(*ssa.Lookup)
 			return isL && isLoadOfField(lk.X, t.fFilterAllowed) && strip(lk.Index) == from
 		})
-		ok = ok && len(call.Common().Args) == 2 && strip(call.Common().Args[1]) == from && strip(call.Common().Args[0]) == ssa.Value(fn.Params[1])
+		ok = ok && len(call.Common().Args) == 2 && strip(call.Common().Args[1]) == from && strip(call.Common().Args[0]) == strip(fn.Params[1])
 		c.Check(ok, rule, FuncName(fn), "inner call f.h(m, from)", t.m.Pos(call.Pos()),
 			"dominated by the found arm of allowedList[from]; passes (m, from) unchanged",
 			"the inner RBC instance is reachable for a `from` that is not in the allowed list (or arguments are altered)")
@@ -240,7 +240,7 @@ func ruleC02V3(c *Ctx, t *thrModel) {
 	c.Rule(rule, "setup wraps RBF results in threadSafeRBC; its Receive calls the inner handler under its lock; setupOnce.Do(setup) opens every API entry", 4)
 	// (a) setup stores a closure into RBF whose results are &threadSafeRBC{h: old(...).Receive}
 	okA := false
-	for _, st := range storesToField([]*ssa.Function{t.setup}, t.fRBF) {
+	for _, st := range storesToField(deepFuncs(t.setup), t.fRBF) {
 		mc, ok := strip(st.Val).(*ssa.MakeClosure)
 		if !ok {
 			continue
@@ -294,7 +294,7 @@ func ruleC02V3(c *Ctx, t *thrModel) {
 	// (b) threadSafeRBC.Receive holds its lock around the inner call
 	fn := c.mustFunc(t.m, PkgThreshold, "threadSafeRBC", "Receive")
 	if fn != nil {
-		calls := callsOfFuncField([]*ssa.Function{fn}, t.fTSH)
+		calls := callsOfFuncField(deepFuncs(fn), t.fTSH)
 		if len(calls) == 0 {
 			c.Bad(rule, FuncName(fn), "inner call under lock", "-", "threadSafeRBC.Receive never calls its inner handler")
 		}
@@ -419,7 +419,7 @@ func (t *thrModel) instanceSizeMatchesFilter() string {
 		if !ok {
 			return "a registered handler is not a bound method"
 		}
-		alloc, isA := strip(recv).(*ssa.Alloc)
+		alloc, isA := resultOf(recv).(*ssa.Alloc)
 		if !isA {
 			return "a registered handler's receiver is not a local filter literal"
 		}
